@@ -63,6 +63,28 @@ Theorem parabolic_sysop_is_weighted_sum : forall x y i,
   (G parabolic_sysop y) x i = parabolic_A x i.
 Proof. unfold parabolic_A; vf. Qed.
 
+(* homogeneity (scale invariance): the step is linear in (u_n, v_n, a_n, bN, F) and the unknown -- multiplying them
+   all by s multiplies the right-hand side, the system row, the evaluation-point states and the returned state by s;
+   so s x solves the scaled system wherever x solves the original one, and the scaled step returns s times the state *)
+Local Notation GS f s y := (f I K C M dt beta gamma alpha (vscal s u_n) (vscal s v_n) (vscal s a_n) y (vscal s bN) (vscal s F)).
+Theorem parabolic_step_homogeneous : forall s x i,
+  GS parabolic_rhs s (vscal s x) i = s * G parabolic_rhs x i /\
+  (GS parabolic_sysop s (vscal s x)) (vscal s x) i = s * parabolic_A x i /\
+  GS parabolic_up_u s (vscal s x) i = s * G parabolic_up_u x i /\
+  GS parabolic_up_v s (vscal s x) i = s * G parabolic_up_v x i /\
+  GS parabolic_up_a s (vscal s x) i = s * G parabolic_up_a x i /\
+  GS parabolic_ev_ut s (vscal s x) i = s * G parabolic_ev_ut x i /\
+  GS parabolic_ev_vt s (vscal s x) i = s * G parabolic_ev_vt x i /\
+  GS parabolic_ev_at s (vscal s x) i = s * G parabolic_ev_at x i.
+Proof. intros; unfold parabolic_A; repeat split; vf. Qed.
+
+Theorem parabolic_scaled_solution : forall s x i,
+  parabolic_A x i = G parabolic_rhs x i ->
+  (GS parabolic_sysop s (vscal s x)) (vscal s x) i = GS parabolic_rhs s (vscal s x) i.
+Proof.
+  intros s x i H. destruct (parabolic_step_homogeneous s x i) as [E1 [E2 _]]. rewrite E1, E2, H. reflexivity.
+Qed.
+
 (* row i of the system minus row i of the right-hand side of _Solver_Apply_Neumann
    = residual of the equation of motion at dof i *)
 Theorem parabolic_eom_identity : forall x i,
@@ -106,6 +128,8 @@ Print Assumptions parabolic_update_rule.
 Print Assumptions parabolic_eval_consistent.
 Print Assumptions parabolic_coefs_are_derivatives.
 Print Assumptions parabolic_sysop_is_weighted_sum.
+Print Assumptions parabolic_step_homogeneous.
+Print Assumptions parabolic_scaled_solution.
 Print Assumptions parabolic_eom_identity.
 Print Assumptions parabolic_discrete_eom.
 Print Assumptions parabolic_newton_consistent.
